@@ -986,6 +986,10 @@ def model_line(cid, toks):
         toks.pop()
     if not toks:
         return None, None
+    # a line that BEGINS with `if` / `for` is a compound statement with its suite on the same line (`if c: x`): no expression or
+    # simple statement starts with these keywords, and compound statements are outside the model (tie with CPython only)
+    if toks[0][0] in ("If", "For"):
+        return None, None
     table, names = {}, []
     parts = []
     for name, payload in toks:
